@@ -84,6 +84,7 @@ FAMILIES = {
     "stl_ascii": ["stl_same_names"],
     "stl": ["stl_same_names"],
     "svg": ["svg_nested"],
+    "3dxml": ["3dxml_faces"],
 }
 
 
@@ -115,6 +116,8 @@ def build(sub, a, b, fmt):
         return obj_same_names(50 + a % 1500)
     if sub == "stl_same_names":
         return stl_same_names(20 + a % 120)
+    if sub == "3dxml_faces":
+        return threedxml_faces(50 + a % 600)
     if sub == "svg_nested":
         return svg_nested([20, 200, 255, 3000][a % 4])
     raise ValueError(sub)
@@ -165,3 +168,27 @@ def glb_image_bomb(side):
     js = json.dumps(doc).encode()
     js += b" " * (-len(js) % 4)
     return b"glTF" + struct.pack("<II", 2, 28 + len(js) + len(blob)) + struct.pack("<I", len(js)) + b"JSON" + js + struct.pack("<I", len(blob)) + b"BIN\x00" + blob
+
+
+def threedxml_faces(n):
+    """The tree's own cube1.3dxml with its single <Face> element repeated n times inside one <Faces> element."""
+    import os
+    import re
+
+    import trimesh
+
+    path = os.path.join(os.path.dirname(os.path.dirname(os.path.abspath(trimesh.__file__))), "models", "cube1.3dxml")
+    with zipfile.ZipFile(path) as z:
+        members = [(i.filename, z.read(i.filename)) for i in z.infolist()]
+    out = []
+    for name, data in members:
+        if name.endswith("Abaqus_Geometry.3DRep"):
+            m = re.search(rb"<Face .*?</Face>", data, re.S)
+            if m:
+                data = data[: m.start()] + (m.group() + b"\n") * n + data[m.end():]
+        out.append((name, data))
+    buf = io.BytesIO()
+    with zipfile.ZipFile(buf, "w", zipfile.ZIP_DEFLATED) as z:
+        for name, data in out:
+            z.writestr(zipfile.ZipInfo(name, (2020, 1, 1, 0, 0, 0)), data, compress_type=zipfile.ZIP_DEFLATED)
+    return buf.getvalue()
